@@ -3,7 +3,8 @@
 FS = 'rolling/* (FS and Arc layer) trusted against the BlockRead/BlockWrite trait contracts'
 
 LEMMAS = {
-    'C01': ['vspec::lemma_parse_ser_item', 'vspec::lemma_parse_ser_items', 'vspec::lemma_parse_ser_entry', 'vspec::lemma_replay_items_is_append_all', 'vspec::lemma_ser_items_empty'],
+    'C01': ['vspec::lemma_parse_ser_item', 'vspec::lemma_parse_ser_items', 'vspec::lemma_parse_ser_entry', 'vspec::lemma_replay_items_is_append_all', 'vspec::lemma_ser_items_empty', 'vspec::lemma_replay_history',
+            'vroundtrip::lemma_roundtrip_all'],
     'C05': ['vspec::lemma_split_filter', 'mem::queue::MemQueue::lemma_truncate_mid'],
     'C07': ['vspec::lemma_frame_enc_len', 'vspec::lemma_full_frame_ends_block', 'vspec::enc', 'vspec::lemma_enc_len_bound', 'frame::header::lemma_hdr_roundtrip',
             'vroundtrip::lemma_blocks_of', 'vroundtrip::lemma_read_written_frame', 'vroundtrip::lemma_read_written_record', 'vroundtrip::lemma_roundtrip_all'],
@@ -24,7 +25,7 @@ PROPS = {
         kani_quick=[], kani_thorough=['K-mrs'],
         trusted=[FS, 'MultiRecord::serialize (bounded K-mrs)', 'record_empty_queues_position (assumed contract)'],
         not_decided=['that GC never deletes a file still needed (Arc strong counts, see C06)', 'BufWriter flush on drop (std)',
-                     'directory listing', 'composition over whole histories is by induction on the per-call obligations, not a machine-checked lemma'],
+                     'directory listing', 'the glue between the spec-level lemmas (L-C01 lemma_replay_history, L-C07 lemma_roundtrip_all) and the file system: that the blocks open() reads are the bytes the writer was handed (trusted FS layer)'],
     ),
     'C03': dict(
         level='proof',
